@@ -303,7 +303,7 @@ PROPS = {
     },
     "C11": {
         "modules": ["SxVerif.Props.C11"],
-        "components": ["arpcache", "proc", "gen", "e2earp"],
+        "components": ["arpcache", "proc", "gen", "iface", "e2earp"],
         "trusted_base": [
             "modelled, not verified: net.IP.String / HardwareAddr.String for 4/6-byte values, net.ParseIP for colon-free text and the ::ffff:a.b.c.d spelling (go1.23 parseIPv4Fields), net.ParseMAC (all three textual forms), bufio.Scanner line splitting (lines below 64 KiB), easyjson's jlexer for arp.ScanResult as the RFC 8259 reader of Spec/Json plus the decoder loop (string-typed ip/mac/vendor, null skipped, unknown keys skipped, repeated key overwrites) — Model/ArpCache.lean; validated on every run through the real ARP processor, encoder, FillCache and cache request generator",
             "other IPv6 text in a cache file and 8/20-byte MACs are outside the model (never printed by the ARP scan); jlexer's leniency on malformed JSON (e.g. trailing commas) is not modelled: the harness's malformed lines are non-objects and truncated objects",
